@@ -31,6 +31,7 @@ type c14Step struct {
 	Reconnect bool     `json:"reconnect,omitempty"`
 	Yield     bool     `json:"yield,omitempty"`
 	SleepUS   int      `json:"sleep_us,omitempty"`
+	Raw       string   `json:"raw,omitempty"` // a request that carries no command (status line, integer, bulk, empty array, ...), sent as it is
 }
 
 type c14Plan struct {
@@ -119,7 +120,11 @@ func runC14Plan(p c14Plan) error {
 							continue
 						}
 					}
-					if _, err := roundTrip(conn, resp.Cmd(st.Cmd...).Bytes(), time.Second); err != nil {
+					req := resp.Cmd(st.Cmd...).Bytes()
+					if st.Raw != "" {
+						req = []byte(st.Raw)
+					}
+					if _, err := roundTrip(conn, req, time.Second); err != nil {
 						dial() // the server was restarted under us, or closed the connection
 					}
 				}
@@ -354,7 +359,9 @@ func genC14Plan(rt *rapid.T) c14Plan {
 				script = append(script, c14Step{Yield: true})
 			case 2:
 				script = append(script, c14Step{SleepUS: rapid.IntRange(1, 200).Draw(rt, "us")})
-			case 3, 4, 5:
+			case 3:
+				script = append(script, c14Step{Raw: rapid.SampledFrom([]string{"+HELLO\r\n", ":1\r\n", "$4\r\nPING\r\n", "-ERR x\r\n", "*0\r\n", "*1\r\n$-1\r\n", "*1\r\n*0\r\n", "$-1\r\n"}).Draw(rt, "raw")})
+			case 4, 5:
 				script = append(script, c14Step{Cmd: c14Cmds[rapid.IntRange(len(c14Cmds)-10, len(c14Cmds)-1).Draw(rt, "cfg")]})
 			default:
 				script = append(script, c14Step{Cmd: c14Cmds[rapid.IntRange(0, len(c14Cmds)-1).Draw(rt, "cmd")]})
@@ -393,7 +400,7 @@ func c14Nontrivial(p c14Plan) bool {
 
 func TestC14(t *testing.T) {
 	h := newHarness(t, "C14", "concurrent workload plans drawn from rapid: 2..32 clients (plain TCP port, TLS port with a client certificate, or in-memory connections through the real connection loop, mixed) against a started server with a race-free recording handler, with or without requirepass, each client a script over every command family with connect/disconnect churn, "+
-		"AUTH, CONFIG SET/GET on shared parameters including requirepass, yields and microsecond delays; one goroutine enumerating Conns()/ConnByUUID, one issuing Stop/Start/Restart and SetRequirePass+Restart; plain or plain+TLS listeners. The plans run in a child process built with -race "+
+		"AUTH, CONFIG SET/GET on shared parameters including requirepass, requests that carry no command, yields and microsecond delays; one goroutine enumerating Conns()/ConnByUUID, one issuing Stop/Start/Restart and SetRequirePass+Restart; plain or plain+TLS listeners. The plans run in a child process built with -race "+
 		"(GORACE halt_on_error=0, log_path); oracle: the race detector - a report counts iff the innermost non-runtime frame of at least one of the two accesses is in github.com/cybergarage/go-redis/redis/..., reduced to an unordered pair of (function, read|write); "+
 		"a 'concurrent map' abort of the child is a violation too. Non-trivial: >=2 clients overlapping and at least one of {CONFIG SET, churn, lifecycle call}. Distinct = distinct plan.")
 	defer h.Finish()
